@@ -145,7 +145,13 @@ func OpenReadWriteFile(f *os.File, roots []cid.Cid, opts ...carv2.Option) (*Read
 	rwbs.ronly.idx = rwbs.idx
 
 	if resume {
-		if err = store.ResumableVersion(f, rwbs.opts.WriteAsCarV1, opts...); err != nil {
+		// Read the version from the start of the file, wherever the position of the
+		// caller's handle is; everything else goes through ReadAt and WriteAt.
+		var vr io.Reader
+		if vr, err = internalio.NewOffsetReadSeeker(f, 0); err != nil {
+			return nil, err
+		}
+		if err = store.ResumableVersion(vr, rwbs.opts.WriteAsCarV1, opts...); err != nil {
 			return nil, err
 		}
 		if err = store.Resume(
